@@ -5,7 +5,7 @@ and spec/rp66_eflr_ref.py for the component encoding.
 from spec import rp66_eflr_ref as E
 from spec import rp66_ref as R
 
-ASCII, OBNAME, UNITS, SLONG, FSINGL = 20, 23, 27, 14, 2
+ASCII, OBNAME, UNITS, SLONG, FSINGL, DTIME = 20, 23, 27, 14, 2, 21
 
 
 def value_bytes(rc, v):
@@ -15,6 +15,9 @@ def value_bytes(rc, v):
         return E.ident(v)
     if rc == OBNAME:
         return E.obname(*v)
+    if rc == DTIME:
+        y, mo, d, h, mi, sec, ms = v
+        return bytes([y - 1900, mo, d, h, mi, sec, ms >> 8, ms & 0xff])          # time zone 0 = local standard
     return E.value_bytes(rc, v)
 
 
@@ -48,7 +51,8 @@ def file_header(seq=1):
 
 
 def origin(file_id=b'VERIF-FILE'):
-    return eflr(b'ORIGIN', [(b'FILE-ID', ASCII), (b'WELL-NAME', ASCII)], [((2, 0, b'DLIS_DEFINING_ORIGIN'), [[file_id], [b'WELL']])])
+    cols = [(b'FILE-ID', ASCII), (b'CREATION-TIME', DTIME), (b'WELL-NAME', ASCII), (b'FIELD-NAME', ASCII), (b'PRODUCER-NAME', ASCII), (b'COMPANY', ASCII)]
+    return eflr(b'ORIGIN', cols, [((2, 0, b'DLIS_DEFINING_ORIGIN'), [[file_id], [(2026, 10, 3, 12, 30, 15, 250)], [b'WELL'], [b'FIELD'], [b'PRODUCER'], [b'COMPANY']])])
 
 
 def parameter(k=0):
